@@ -959,6 +959,10 @@ def rule_who(ctx, M):
             # a closure of a helper that was inlined into its callers: as allowed as all of those callers
             root_ok = all(r in owners for r in hc)
         util_ok = any(x in ("::" + cdef) for x in allowed_utils) or b.name in LOCAL_UNSAFE
+        if not util_ok and b.kind == "Closure" and b.root != b.def_:
+            # a closure of one of the local wrappers (`array.map(|slot| slot.assume_init())` inside array_assume_init)
+            rb = M.F.by_def.get(b.root) if hasattr(M.F, "by_def") else None
+            util_ok = rb is not None and rb.name in LOCAL_UNSAFE
         # closures of owner bodies (for_each destructor closure)
         if root_ok or util_ok:
             n_in += len(bad)
